@@ -91,6 +91,58 @@ def _call(wsgi, env, seen):
     return ("other", status.get("s"), body[:80])
 
 
+class RealMiddleware:
+    """ONE instance of the real proxy_headers_middleware (around a recording
+    application) that is fed a whole history of requests: whatever the
+    middleware remembers between requests shows up as a disagreement with the
+    (stateless) model on a later request."""
+
+    def __init__(self, cfg, log_untrusted=False):
+        from waitress.proxy_headers import proxy_headers_middleware
+
+        self.cfg = cfg
+        self.seen = {}
+
+        def app(environ, start_response):
+            self.seen["env"] = dict(environ)
+            return [b""]
+
+        self.mw = proxy_headers_middleware(
+            app, trusted_proxy=cfg.tp, trusted_proxy_count=cfg.count,
+            trusted_proxy_headers=None if cfg.tph is None else set(cfg.tph),
+            clear_untrusted=cfg.clear, log_untrusted=log_untrusted, logger=NullLogger())
+
+    def run(self, env):
+        self.seen.pop("env", None)
+        return _call(self.mw, env, self.seen)
+
+
+def history_stream(runner, rng, n_instances, per_instance, mode):
+    """histories of requests through the same middleware instance, each request
+    compared with the model and (untrusted peers) with the two-run statement.
+    -> (n requests, mismatches [(env,cfg,real,model,position)], tworun failures [(env,cfg,fails,position)])"""
+    mism = []
+    tw = []
+    n = 0
+    for i in range(n_instances):
+        _e, cfg = gen_case(rng, mode)
+        inst = RealMiddleware(cfg, log_untrusted=(i % 4 != 3))
+        envs = [gen_case(rng, mode)[0] for _ in range(per_instance)]
+        # repeat some requests: the same headers arrive again and again from a chatty upstream
+        envs += [dict(envs[rng.randrange(len(envs))]) for _ in range(max(2, per_instance // 3))]
+        model = model_batch(runner, [(e, cfg) for e in envs])
+        for pos, (env, m) in enumerate(zip(envs, model)):
+            r = inst.run(env)
+            n += 1
+            if canon(r) != canon(m):
+                mism.append((env, cfg, r, m, pos))
+            if "REMOTE_ADDR" in env and not is_trusted_path(env, cfg):
+                fails = c15_tworun_eval(env, cfg, runner_fn=inst.run)
+                if fails:
+                    tw.append((env, cfg, fails, pos))
+    return n, mism, tw
+
+
 def real_middleware(env, cfg, log_untrusted=False):
     """Run the real proxy_headers_middleware around a recording application."""
     from waitress.proxy_headers import proxy_headers_middleware
@@ -795,29 +847,22 @@ def environ_from_request(server, peer, raw):
 # ---- evaluations shared by checks/C15.py, checks/C16.py and their replay() ----
 
 def c16_spec_eval(spec, env, cfg, real=None):
-    """C16 on one trusted-path case.  -> (verdict, detail, kf_class)
-    verdict: 'pass' | 'fail';  kf_class names the known-finding class when the
-    failure is exactly one of the recorded defects."""
+    """C16 on one trusted-path case.  -> (verdict, detail)   verdict: 'pass' | 'fail'"""
     if real is None:
         real = real_middleware(env, cfg)
     exp = spec_expect(spec, env, cfg)
     if exp[0] == "mal":
         cats = exp[1]
         if real[0] == "mal":
-            return "pass", cats[0], None
-        kf = None
-        if "empty-client-address" in cats and "scheme" not in cats and real == ("exn", "IndexError"):
-            kf = "kf_c16_client_addr_empty"
-        elif cats == ["empty-host"] and real[0] == "ok":
-            kf = "kf_c16_empty_host"
-        return "fail", "category %s must give 400, implementation: %s" % ("+".join(cats), short(real)), kf
+            return "pass", cats[0]
+        return "fail", "category %s must give 400, implementation: %s" % ("+".join(cats), short(real))
     if real[0] != "ok":
-        return "fail", "well-formed proxy headers, implementation: %s" % short(real), None
+        return "fail", "well-formed proxy headers, implementation: %s" % short(real)
     bad = check_ok_facts(spec, env, cfg, exp[1], real[1])
     if bad:
         what, want, got = bad[0]
-        return "fail", "%s: expected %r, observed %r" % (what, want, got), None
-    return "pass", "ok", None
+        return "fail", "%s: expected %r, observed %r" % (what, want, got)
+    return "pass", "ok"
 
 
 def short(r):
@@ -995,7 +1040,7 @@ def replay_common(data):
         print("config=%s headers=%r\n %s" % (data["config"], data.get("proxy_headers"), fails or "holds now"))
         return 1 if fails else 0
     if kind == "spec":
-        v, d, kf = c16_spec_eval(Spec(), env, cfg)
+        v, d = c16_spec_eval(Spec(), env, cfg)
         print("config=%s headers=%r\n %s: %s" % (data["config"], data.get("proxy_headers"), v, d))
         return 0 if v == "pass" else 1
     if kind == "prune":
